@@ -148,6 +148,22 @@ class EngineC08(HistEngine):
                 bad_defs[name] = str(e)
         registered: list[str] = []
         all_funcs = gen_call.all_funcs(funcs)
+        # a routine registered through the public API must get the body its source compiles to, whatever happened
+        # before (e.g. an earlier registration of the same name that raised): compare with a fresh compiler
+        from sim import norm as _norm
+        good_regs = [op for op in ops if op["op"] == "add_sub" and not op.get("expect_fail")]
+        for gi, op in enumerate(good_regs):
+            name = op["name"]
+            if name not in defs:
+                continue
+            rdef = self.ref_def(workload["fmt0"], good_regs[:gi + 1])
+            if rdef is None:
+                continue
+            out.count("defs_compared")
+            if _norm.normalise(defs[name]) != rdef:
+                V.append(Violation("C08", "registration", "def-differs-from-fresh", cfg,
+                                   {"routine": name, "source": op["body"][:300],
+                                    "diff": _norm.first_difference(_norm.normalise(defs[name]), rdef)}))
         nstates = self.nstates[self.tier]
         states = None
         for step, (op, o) in enumerate(zip(ops, obs)):
@@ -228,8 +244,10 @@ class EngineC08(HistEngine):
                 out.count("states_executed")
                 if scoped_err is not None:
                     out.count("il_error_scoped")
-                    if flat_err is None and not iso_done:
-                        pass
+                    if "ret_val" in scoped_err and not conv_done:
+                        V.append(Violation("C08", "convention", "no-return-value", cfg,
+                                           {"caller": c["text"], "error": scoped_err, "uses": c["uses"]}, step))
+                        conv_done = True
                     continue
                 out.count("calls_executed", scoped["calls"])
                 # ---- oracle 1: isolation (flat vs scoped)
@@ -304,6 +322,18 @@ class EngineC08(HistEngine):
                     break
         out.count("ops", len(ops))
         out.see("histories", stable_hash(workload)[:16])
+
+    def ref_def(self, fmt, regs):
+        key = ("c08def", fmt, stable_hash([{k: v for k, v in r.items() if k != "inst"} for r in regs])[:16])
+        if key not in self.refs:
+            from sim import norm as _norm
+            ops = [dict(r, inst=0) for r in regs]
+            try:
+                o = self.sim.execute(fmt, ops)[-1]
+                self.refs[key] = _norm.normalise(o["def"]) if o["status"] == "ok" else None
+            except RuntimeError:
+                self.refs[key] = None
+        return self.refs[key]
 
     def ref_with_subs(self, fmt, caller, workload):
         """The caller compiled on a fresh compiler right after registering the routines of this workload."""
